@@ -99,7 +99,9 @@ pub fn oracle(sc: &Scenario, obs: &mut Obs) -> CaseResult {
                 // the peer's generation (same client): never more than one apart
                 if let Some(ci) = conn_client(&out, r.ep, r.conn) {
                     for ((ep2, c2), g2) in &generation {
-                        if *ep2 != r.ep && conn_client(&out, *ep2, *c2) == Some(ci) && !closed.contains_key(&(*ep2, *c2)) {
+                        // (a delayed copy of the client's Initial makes the server start a second, never completing connection: only
+                        // the connection that confirmed the handshake is the peer)
+                        if *ep2 != r.ep && conn_client(&out, *ep2, *c2) == Some(ci) && !closed.contains_key(&(*ep2, *c2)) && confirmed.get(&(*ep2, *c2)).copied().unwrap_or(false) {
                             let d = (*g as i32 - *g2 as i32).abs();
                             if d > 1 {
                                 return Err(Fail::new(
@@ -132,7 +134,7 @@ pub fn oracle(sc: &Scenario, obs: &mut Obs) -> CaseResult {
                 // who is ahead? (the sender's own read-key generation, from its events)
                 let g_here = generation.get(&key).copied().unwrap_or(0);
                 let g_peer = conn_client(&out, r.ep, r.conn)
-                    .and_then(|ci| generation.iter().filter(|((ep2, c2), _)| *ep2 != r.ep && conn_client(&out, *ep2, *c2) == Some(ci)).map(|(_, g)| *g).max());
+                    .and_then(|ci| generation.iter().filter(|((ep2, c2), _)| *ep2 != r.ep && conn_client(&out, *ep2, *c2) == Some(ci) && confirmed.get(&(*ep2, *c2)).copied().unwrap_or(false)).map(|(_, g)| *g).max());
                 let key_s = match g_peer {
                     // known finding: the peer has moved on to generation g+1 and, three PTOs later, starts the update to g+2
                     // although none of its packets of generation g+1 was ever acknowledged (RFC 9001 6.1 MUST NOT)
